@@ -84,12 +84,14 @@ class Proxy(object):
          ('flip', dir, raw_offset, mask)
          ('drop'|'dup'|'swap', dir, msg_index)
          ('inject', dir, msg_index, kind)      a record of INJECT[kind] in front of that message
+         ('hold_after_sh', 's2c')              deliver nothing to the client after the first real ServerHello
+                                               (what the client does then depends on the ServerHello alone)
          ('rw', dir, msg_index, rewrite_name)
     """
 
     def __init__(self, ops=()):
         self.ops = list(ops)
-        self.raw = all(o[0] == 'flip' for o in self.ops)
+        self.raw = all(o[0] == 'flip' for o in self.ops)       # (no ops -> raw pass-through)
         self.off = {C2S: 0, S2C: 0}
         self.inb = {C2S: b'', S2C: b''}
         self.hs = {C2S: b'', S2C: b''}
@@ -103,6 +105,8 @@ class Proxy(object):
         self.msgs_out = {C2S: [], S2C: []}                       # ... as delivered
         self.applied = []
         self.last_rec_ver = {C2S: b'\x03\x03', S2C: b'\x03\x03'}
+        self.hold_after_sh = any(o[0] == 'hold_after_sh' for o in self.ops)
+        self.holding = False          # True once the first real ServerHello went to the client
 
     def attach(self, pair):
         pair.csock.tap = self.tap
@@ -111,17 +115,16 @@ class Proxy(object):
     # -- the tap
     def tap(self, d, chunk):
         self.log_in[d] += chunk
-        if self.raw:
-            out = bytearray(chunk)
-            base = self.off[d]
-            for op in self.ops:
-                if op[1] == d and base <= op[2] < base + len(chunk):
-                    out[op[2] - base] ^= op[3]
-                    self.applied.append(op)
-            self.off[d] += len(chunk)
-            out = bytes(out)
-        else:
-            out = self._message_mode(d, chunk)
+        out = bytearray(chunk)
+        base = self.off[d]
+        for op in self.ops:                     # byte flips act on the raw stream, whatever the mode
+            if op[0] == 'flip' and op[1] == d and base <= op[2] < base + len(chunk):
+                out[op[2] - base] ^= op[3]
+                self.applied.append(op)
+        self.off[d] += len(chunk)
+        out = bytes(out)
+        if not self.raw:
+            out = self._message_mode(d, out)
         self.log_out[d] += out
         return out
 
@@ -132,6 +135,8 @@ class Proxy(object):
         recs, self.inb[d] = split_records(self.inb[d] + chunk)
         out = b''
         for ty, ver, payload in recs:
+            if d == S2C and self.holding:
+                continue                                # 'hold_after_sh': nothing after the ServerHello is delivered
             if self._plaintext_hs(d, ty):
                 self.last_rec_ver[d] = ver
                 msgs, self.hs[d] = split_messages(self.hs[d] + payload)
@@ -155,7 +160,7 @@ class Proxy(object):
         outs = [m]
         pre = b''
         for op in self.ops:
-            if op[1] != d:
+            if op[1] != d or op[0] in ('hold_after_sh', 'flip'):
                 continue
             if op[0] == 'swap' and op[2] == i:
                 self.held[d] = m
@@ -190,8 +195,16 @@ class Proxy(object):
                 outs = new
         res = pre
         for x in outs:
+            if d == S2C and self.holding:
+                break
             self.msgs_out[d].append(x)
             res += mk_records(22, ver, x)
+            if self.hold_after_sh and d == S2C and x[:1] == b'\x02':
+                try:
+                    if bytes(parse_sh(x).random) != bytes(TLS_1_3_HRR):
+                        self.holding = True
+                except Exception:  # noqa
+                    pass
         return res
 
 
@@ -626,6 +639,15 @@ def scenarios():
     # a TLS 1.2 session resumed between two endpoints that (now) both support TLS 1.3
     S['srv13-resume12'] = dict(kind='cert', cred='rsa', cs=_st((3, 1), (3, 3)), ss=_st((3, 1), (3, 4)),
                                resume='id')
+    # an existing TLS 1.2 (1.0) session; the client reconnects with a HIGHER maximum and offers it.  Honest: the server
+    # negotiates the higher version with a full handshake.  Under version-capping the server resumes and writes the sentinel.
+    S['both13-resume12-id'] = dict(kind='cert', cred='rsa', cs0=_st((3, 1), (3, 3)), cs=_st((3, 1), (3, 4), keyShares=['x25519']),
+                                   ss=_st((3, 1), (3, 4)), resume='id')
+    S['both13-resume12-ticket'] = dict(kind='cert', cred='rsa', cs0=_st((3, 1), (3, 3)),
+                                       cs=_st((3, 1), (3, 4), keyShares=['x25519']),
+                                       ss=_st((3, 1), (3, 4), ticketKeys=[b'\x22' * 32], ticket_count=1), resume='ticket')
+    S['both12-resume10-id'] = dict(kind='cert', cred='rsa', cs0=_st((3, 1), (3, 1)), cs=_st((3, 1), (3, 3)),
+                                   ss=_st((3, 1), (3, 3)), resume='id')
     # SCSV: a client that fell back to TLS 1.1 and says so, against a TLS 1.2 server
     S['scsv-fallback11'] = dict(kind='cert', cred='rsa', cs=_st((3, 1), (3, 2), sendFallbackSCSV=True),
                                 ss=_st((3, 1), (3, 3)))
